@@ -132,27 +132,31 @@ class RFC8323Remote:
 
     def _process_signaling(self, msg):
         if msg.code == CSM:
-            if self._remote_settings is None:
-                self._remote_settings = {}
+            # Only taking the settings over once all options were accepted: a
+            # CSM that is answered with an Abort does not count as received.
+            remote_settings = dict(self._remote_settings or {})
             for opt in msg.opt.option_list():
                 # FIXME: this relies on the relevant option numbers to be
                 # opaque; message parsing should already use the appropriate
                 # option types, or re-think the way options are parsed
                 if opt.number == 2:
-                    self._remote_settings["max-message-size"] = int.from_bytes(
+                    remote_settings["max-message-size"] = int.from_bytes(
                         opt.value, "big"
                     )
                 elif opt.number == 4:
-                    self._remote_settings["block-wise-transfer"] = True
+                    remote_settings["block-wise-transfer"] = True
                 elif opt.number.is_critical():
                     self.abort("Option not supported", bad_csm_option=opt.number)
+                    return
                 else:
                     pass  # ignoring elective CSM options
+            self._remote_settings = remote_settings
         elif msg.code in (PING, PONG, RELEASE, ABORT):
             # not expecting data in any of them as long as Custody is not implemented
             for opt in msg.opt.option_list():
                 if opt.number.is_critical():
                     self.abort("Unknown critical option")
+                    return
                 else:
                     pass
 
